@@ -48,6 +48,7 @@ import (
 	"perkeep.org/pkg/blobserver"
 	"perkeep.org/pkg/jsonsign"
 	"perkeep.org/pkg/schema"
+	"perkeep.org/pkg/sorted"
 	"tailscale.com/util/mak"
 )
 
@@ -87,6 +88,12 @@ type mutationMap struct {
 }
 
 func (mm *mutationMap) Set(k, v string) {
+	if sorted.CheckSizes(k, v) != nil {
+		// No sorted.KeyValue stores such a row (they all skip it silently),
+		// so it must not reach the corpus either: what is in memory has to
+		// be what a restart finds in the index.
+		return
+	}
 	if mm.kv == nil {
 		mm.kv = make(map[string]string)
 	}
